@@ -24,9 +24,13 @@ structure PQueue where
 
 namespace PQueue
 
+/-- `sizeof(void*)` on the LP64 target -/
+def ptrSize : Nat := 8
+
 /-- `cc_pqueue_new_conf` (the struct is calloc'ed, so `size = 0`) -/
 def new (cap : Nat) (exGe : Nat → Bool) (m : Mem) : Stat × Option PQueue × Mem :=
   if cap = 0 || exGe (Gen.CC_MAX_ELEMENTS / cap) then (.errInvalidCapacity, none, m) else
+  if cap > Gen.CC_MAX_ELEMENTS / ptrSize then (.errInvalidCapacity, none, m) else
   let a1 := m.alloc                       -- mem_calloc(1, sizeof(CC_PQueue))
   if !a1.1 then (.errAlloc, none, a1.2) else
   let a2 := a1.2.alloc                    -- mem_alloc(capacity * sizeof(void*))
@@ -51,6 +55,7 @@ def newCapacity (grow : Nat → Nat) (q : PQueue) : Nat :=
 def expandCapacity (grow : Nat → Nat) (q : PQueue) (m : Mem) : Stat × PQueue × Mem :=
   if q.capacity = Gen.CC_MAX_ELEMENTS then (.errMaxCapacity, q, m) else
   let nc := newCapacity grow q
+  if nc > Gen.CC_MAX_ELEMENTS / ptrSize then (.errMaxCapacity, q, m) else
   let al := m.alloc                       -- mem_alloc(new_capacity * sizeof(void*))
   if !al.1 then (.errAlloc, q, al.2) else
   let m := al.2.check (q.size ≤ q.buf.length && q.size ≤ nc)
